@@ -92,8 +92,14 @@ func (m *limitMon) OnEvent(w *vrt.World, ev *vrt.Event) {
 			if k > 0 && m.sentAt[k-1] > bound {
 				bound = m.sentAt[k-1]
 			}
-			if int64(k) >= m.Q && m.sentAt[int64(k)-m.Q]+m.I > bound {
-				bound = m.sentAt[int64(k)-m.Q] + m.I
+			if int64(k) >= m.Q {
+				rb := m.sentAt[int64(k)-m.Q] + m.I
+				if rb < m.sentAt[int64(k)-m.Q] {
+					rb = 1<<63 - 1 // saturate (intervals at the top of the type)
+				}
+				if rb > bound {
+					bound = rb
+				}
 			}
 			if now > bound {
 				m.f.fail("C12", "element %d left the discipline at %d although it was offered at %d, its predecessor left at %d and the rate constraint (element %d places earlier + Interval %d) allowed it at %d: throttled below the configured rate", k, now, m.offerAt[k], bound, m.Q, m.I, bound)
